@@ -211,6 +211,78 @@ fn carg_3_2_t2<const N: usize>(a: u32) {
     call(&format!("carg_3_2_t2/{N}/{a}"));
 }
 
+// ---- siblings with different thread counts (run together, in name order) -------
+mod sib {
+    use super::{call, run};
+    use divan::Bencher;
+
+    #[divan::bench(threads = 2, sample_count = 3, sample_size = 2)]
+    fn s1_t2(b: Bencher) {
+        run("s1_t2");
+        b.bench(|| call("s1_t2"));
+    }
+
+    /// no `threads`: one thread, whatever ran before it
+    #[divan::bench(sample_count = 3, sample_size = 2)]
+    fn s2_plain(b: Bencher) {
+        run("s2_plain");
+        b.bench(|| call("s2_plain"));
+    }
+
+    #[divan::bench(threads = 3, sample_count = 3, sample_size = 2)]
+    fn s3_t3(b: Bencher) {
+        run("s3_t3");
+        b.bench(|| call("s3_t3"));
+    }
+
+    #[divan::bench(threads = [1, 2], sample_count = 2, sample_size = 1)]
+    fn s4_t12(b: Bencher) {
+        run("s4_t12");
+        b.bench(|| call("s4_t12"));
+    }
+}
+
+// ---- parameterless functions with a foreign ABI (the macro wraps them in a closure) ----
+#[divan::bench(threads = 2, sample_count = 2, sample_size = 2)]
+extern "C" fn ext_c_2_2_t2() {
+    call("ext_c_2_2_t2");
+}
+
+#[divan::bench(types = [u8, u16], threads = 1, sample_count = 3, sample_size = 1)]
+extern "C" fn ext_ty_3_1_t1<T: 'static>() {
+    let t = std::any::type_name::<T>();
+    call(&format!("ext_ty_3_1_t1/{t}"));
+}
+
+#[divan::bench(consts = [4, 8], threads = 2, sample_count = 1, sample_size = 3)]
+extern "system" fn ext_const_1_3_t2<const N: usize>() {
+    call(&format!("ext_const_1_3_t2/{N}"));
+}
+
+// ---- time limits from the command line / environment ------------------------
+/// Under the virtual clock (`HX_VCLOCK=<ticks per call>`, 1 tick = 1 ps): every call
+/// advances the calling thread's clock by that many ticks, so the round count
+/// under `--max-time` / `--min-time` is exact.
+#[divan::bench(sample_size = 1)]
+fn vclk(b: Bencher) {
+    run("vclk");
+    let cost: u64 = std::env::var("HX_VCLOCK").ok().and_then(|v| v.parse().ok()).unwrap_or(0);
+    b.bench(|| {
+        call("vclk");
+        divan::__verif::vclock_advance(cost);
+    });
+}
+
+/// On the OS timer: every call really takes at least 400 ms.
+#[divan::bench(sample_count = 6, sample_size = 1)]
+fn os_sleep400(b: Bencher) {
+    run("os_sleep400");
+    b.bench(|| {
+        call("os_sleep400");
+        std::thread::sleep(std::time::Duration::from_millis(400));
+    });
+}
+
 /// Display paths of all benchmarks of this binary (for `HX_ONLY`).
 const ALL: &[&str] = &[
     "hx_loop_e2e::plain",
@@ -240,6 +312,17 @@ const ALL: &[&str] = &[
     "hx_loop_e2e::garg_4_2_t3::u16::2",
     "hx_loop_e2e::carg_3_2_t2::4::1",
     "hx_loop_e2e::carg_3_2_t2::8::1",
+    "hx_loop_e2e::sib::s1_t2",
+    "hx_loop_e2e::sib::s2_plain",
+    "hx_loop_e2e::sib::s3_t3",
+    "hx_loop_e2e::sib::s4_t12",
+    "hx_loop_e2e::ext_c_2_2_t2",
+    "hx_loop_e2e::ext_ty_3_1_t1::u8",
+    "hx_loop_e2e::ext_ty_3_1_t1::u16",
+    "hx_loop_e2e::ext_const_1_3_t2::4",
+    "hx_loop_e2e::ext_const_1_3_t2::8",
+    "hx_loop_e2e::vclk",
+    "hx_loop_e2e::os_sleep400",
 ];
 
 /// `HX_BUILDER`: `;`-separated builder calls (`sample_count=7`, `sample_size=3`,
@@ -266,6 +349,14 @@ fn main() {
             "max_time" => d.max_time(std::time::Duration::from_secs_f64(v.parse().expect("secs"))),
             other => panic!("unknown builder call {other}"),
         };
+    }
+    if std::env::var("HX_VCLOCK").is_ok() {
+        // virtual timestamp counter at 10^12 Hz (use with `--timer tsc`); the precision and the
+        // overheads cannot be measured on a clock that only the benchmark body advances
+        divan::__verif::vclock_set(0);
+        divan::__verif::vclock_enable(1_000_000_000_000, 0);
+        divan::__verif::set_precision_override(Some(1));
+        divan::__verif::set_overhead_override(Some([0; 4]));
     }
     let start = std::env::var("HX_START").unwrap_or_else(|_| "main".to_string());
     match start.as_str() {
